@@ -1,7 +1,7 @@
 use crate::{
     cfg::Cfg,
     parser::InstructionProperties,
-    passes::{DiagnosticBuilder, DiagnosticManager, LintError, LintPass},
+    passes::{DiagnosticBuilder, DiagnosticLocation, DiagnosticManager, LintError, LintPass},
 };
 use std::rc::Rc;
 
@@ -19,7 +19,12 @@ impl LintPass for ControlFlowCheck {
                 // If the previous nodes set is not empty
                 // Note: this also accounts for functions being at the beginning
                 // of a program, as the ProgEntry node will be the previous node
-                for prev_node in node.prevs().iter() {
+                // The predecessors are a hash set: visit them in source order, so
+                // that items reported at the same place come in the same order on
+                // every run.
+                let mut prevs = node.prevs().iter().cloned().collect::<Vec<_>>();
+                prevs.sort_by(|a, b| a.node().range().cmp(&b.node().range()));
+                for prev_node in &prevs {
                     for function in node.functions().iter() {
                         if prev_node.is_program_entry() {
                             errors.push(LintError::FirstInstructionIsFunction(
